@@ -3,7 +3,7 @@ import Rivaas.Spec.OpenAPI
 /-
 Driver for C07. Case line:
 
-  <id> <30|31> <strict> <nenv> ENV* <nops> OP* <nservers> <url>*  =>  OFF ON <metaValid> <refsResolve> <stable> <validatorAgrees> <served> <coldStart> <dataIntact>
+  <id> <30|31> <strict> <nenv> ENV* <nops> OP* <nservers> <url>* <info summary>  =>  OFF ON <metaValid> <refsResolve> <stable> <validatorAgrees> <served> <coldStart> <dataIntact>
 
   ENV := <tid> S <name> <pkgPath> <n> FIELD*  |  <tid> A TY
   FIELD := F <name> <exported> <json> <validate> <query> <path> <header> <cookie> <default> <style> <explode> <doc> <example> <enum> <format> <typeIs> TY | E <tid>
@@ -143,6 +143,7 @@ structure Input where
   env : Env
   ops : List OpIn
   servers : List B      -- configured server urls ([] = none configured)
+  summary : B           -- WithInfoSummary ("" = not configured)
 
 def pInput : M Input := do
   let vt ← tk
@@ -151,7 +152,8 @@ def pInput : M Input := do
   let env ← pList pEnvEntry
   let ops ← pList pOp
   let servers ← pList pStr
-  pure { v, strict, env, ops, servers }
+  let summary ← pStr
+  pure { v, strict, env, ops, servers, summary }
 
 /-! ## reading the produced JSON strictly into `Doc Schema` -/
 
@@ -351,21 +353,23 @@ structure DocAcc where
   paths : List (B × PathItem Schema) := []
   schemas : List (B × Schema) := []
   info : Bool := false
+  infoSummary : B := []
 
 def pDoc : M (Doc Schema) := do
   let acc ← pObj ({} : DocAcc) fun k d => do
     if k = s "openapi" then do let v ← pJStr; pure { d with openapi := v }
     else if k = s "jsonSchemaDialect" then do let v ← pJStr; pure { d with dialect := v }
     else if k = s "info" then do
-      let r ← pObj (false, false) fun kk a => do
-        if kk = s "title" then do let _ ← pJStr; pure (true, a.2)
-        else if kk = s "version" then do let _ ← pJStr; pure (a.1, true)
+      let r ← pObj ((false, false), ([] : B)) fun kk a => do
+        if kk = s "title" then do let _ ← pJStr; pure ((true, a.1.2), a.2)
+        else if kk = s "version" then do let _ ← pJStr; pure ((a.1.1, true), a.2)
+        else if kk = s "summary" then do let v ← pJStr; pure (a.1, v)
         else if isExtKey kk then do pSkip; pure a
         -- API-level configuration objects: compared by the harness (`configIntact`)
-        else if kk = s "description" ∨ kk = s "termsOfService" ∨ kk = s "contact" ∨ kk = s "license" ∨ kk = s "summary" then do
+        else if kk = s "description" ∨ kk = s "termsOfService" ∨ kk = s "contact" ∨ kk = s "license" then do
           pSkip; pure a
         else fail s!"unknown info member {String.ofList kk}"
-      if r.1 && r.2 then pure { d with info := true } else fail "info without title/version"
+      if r.1.1 && r.1.2 then pure { d with info := true, infoSummary := r.2 } else fail "info without title/version"
     else if k = s "servers" then do
       let v ← pJArr (do
         let u ← pObj (none : Option B) fun kk acc => do
@@ -394,7 +398,8 @@ def pDoc : M (Doc Schema) := do
     else if k = s "externalDocs" ∨ k = s "tags" ∨ k = s "security" then do pSkip; pure d   -- configuration (harness)
     else fail s!"unknown document member {String.ofList k}"
   if !acc.info then fail "document without info"
-  pure { openapi := acc.openapi, dialect := acc.dialect, servers := acc.servers, paths := acc.paths, schemas := acc.schemas }
+  pure { openapi := acc.openapi, dialect := acc.dialect, servers := acc.servers, paths := acc.paths, schemas := acc.schemas,
+         infoSummary := acc.infoSummary }
 
 /-! ## observations -/
 
@@ -500,6 +505,7 @@ def diffDoc (m i : Doc Schema) : Option String :=
   if m.openapi ≠ i.openapi then some "openapi"
   else if m.dialect ≠ i.dialect then some "jsonSchemaDialect"
   else if m.servers ≠ i.servers then some "servers"
+  else if m.infoSummary ≠ i.infoSummary then some "info.summary"
   else
     (diffList "paths" (fun p a b =>
       if a.1 ≠ b.1 then some s!"{p}: key {String.ofList a.1} vs {String.ofList b.1}"
@@ -516,6 +522,7 @@ def errName : Err → String
   | .noPaths => "nopaths"
   | .validation => "validation"
   | .style => "style"
+  | .strict => "strict"
 
 def clean (x : String) : String := x.map fun c => if c = ' ' ∨ c = '\n' then '_' else c
 
@@ -555,15 +562,15 @@ def step (line : String) : String :=
           let stable := stb == "1"
           -- the model
           let pathsValid := x.ops.all fun op => validatePath op.path
-          let mOff := generate x.v x.strict none x.env x.ops
-          let mOn := generate x.v x.strict (some fun _ => metaValid) x.env x.ops
+          let cfg : ApiCfg := { servers := x.servers, summary := x.summary }
+          let mOff := generate cfg x.v x.strict none x.env x.ops
+          let mOn := generate cfg x.v x.strict (some fun _ => metaValid) x.env x.ops
           -- MI
           let (miOff, why) : Bool × String :=
             if !pathsValid then (match off with | .ctorPanic => (true, "") | _ => (false, "model:ctor-panic"))
             else match mOff, off with
               | .error e, .err c => (errName e == c, s!"model:E_{errName e}")
-              | .ok md0, .doc d =>
-                let md := if x.servers.isEmpty then md0 else { md0 with servers := x.servers }
+              | .ok md, .doc d =>
                 (match diffDoc md d with | none => (true, "") | some w => (false, "diff:" ++ clean w))
               | .error e, _ => (false, s!"model:E_{errName e}")
               | .ok _, .unparsed w => (false, "unparsed:" ++ clean w)
